@@ -124,6 +124,34 @@ def run_side(side, slice_, lines, tag=None):
     if out and out[-1] == "": out.pop()
     return out
 
+def run_isolating(binary, lines):
+    """Run a line-protocol binary over `lines`; a request that kills the process (stack overflow in typify is not a
+    catchable panic) gets the answer None and the rest is re-run after it. Returns a list as long as `lines`."""
+    out = [None] * len(lines); start = 0
+    def go(ls):
+        p = subprocess.run([binary], input="".join(l + "\n" for l in ls), capture_output=True, text=True, env=ENV)
+        got = p.stdout.split("\n")
+        if got and got[-1] == "": got.pop()
+        return p.returncode, got
+    while start < len(lines):
+        rc, got = go(lines[start:])
+        if rc == 0 and len(got) == len(lines) - start:
+            out[start:] = got; break
+        got = got[:len(lines) - start]
+        culprit = start + len(got)
+        if culprit < len(lines) and go([lines[culprit]])[0] != 0:
+            out[start:culprit] = got
+        else:
+            # answers were lost in a buffer, or the death depends on earlier requests: one by one from `start`
+            culprit = None
+            for i in range(start, len(lines)):
+                rc1, g1 = go([lines[i]])
+                if rc1 != 0 or len(g1) != 1: culprit = i; break
+                out[i] = g1[0]
+            if culprit is None: break
+        out[culprit] = None; start = culprit + 1
+    return out
+
 def run_pair(ctx, slice_, lines):
     """feed the same request lines to the implementation harness and to the Lean driver"""
     impl = run_side("impl", slice_, lines)
